@@ -80,6 +80,8 @@ struct World {
   int depth = 0;       // nesting depth of mock calls made by the harness (0 = top level)
   int callobj = 0;     // object of the call in progress
   int throw_depth = 0; // nesting depth at which the exception in flight was thrown
+  int armed = 0;       // 1 + mock object the reporter destroys on the next non-fatal report, 0 = none
+  void fire_armed() { if (!armed) return; int obj = armed - 1; armed = 0; if (obj < 2) m[obj].reset(); else mv[obj - 2].reset(); }
 
   World();
   ~World();
